@@ -444,6 +444,10 @@ impl C06 {
                     rep.count("read_vs_slice.same_rejection");
                     rep.count(&format!("read_vs_slice.rejection.{}", se.class().split(':').next().unwrap_or("")));
                     rep.sig(&format!("d|{}|{}", t.name, se.class()));
+                } else if matches!(se, NErr::Len { layer: Lay::Ipv4Packet | Lay::Ipv6Packet, .. }) {
+                    // the slice does not hold the announced packet: outside the statement ("a slice
+                    // that holds the announced packet"); the reader cannot know and goes on
+                    rep.count("read_vs_slice.length_rule_skipped");
                 } else {
                     // coexisting faults (content + length) may be reported in either order
                     let multi = matches!((se, re), (NErr::Content(_), NErr::Io(_)) | (NErr::Content(_), NErr::Len { .. }) | (NErr::Len { .. }, NErr::Content(_)));
@@ -486,11 +490,13 @@ impl Monitor for C06 {
             ("sweep", tier.pick(20000, 2000000)),
             ("read", tier.pick(6000000, 600000000)),
             ("corpus", tier.pick(400_000, 8_000_000)),
+            ("api", tier.pick(1_000_000, 20_000_000)),
         ]
     }
 
     fn run_case(&mut self, engine: &str, idx: u64, rng: &mut Prng, rep: &mut Report) {
         match engine {
+            "api" => super::api::c06(rep, rng),
             "corpus" => match gen::corpus::case(idx, rng) {
                 Some(case) => {
                     rep.count("corpus_cases");
